@@ -25,7 +25,7 @@
    * load() also *initialises* the chunk (inserts the empty array / zero); reading an
      uninitialised chunk through a default is extensionally the same, so load is pure. *)
 From Coq Require Import ZArith List Bool.
-From HV Require Import Spec.StorageSpec Gen.GenStoreConsts Gen.GenHashes.
+From HV Require Import Spec.StorageSpec Gen.GenStoreConsts Gen.GenHashes Gen.GenStoreAxioms.
 Import ListNotations.
 Open Scope Z_scope.
 
@@ -359,6 +359,120 @@ End Store.
 Arguments LVal {key val}. Arguments LZero {key val}. Arguments LInit {key val}. Arguments LSelect {key val}.
 Arguments CScalar {key val}. Arguments CArr {key val}.
 
+(* ------------------------------------------------------------------ the path side of load / store *)
+(* What the code really builds.  Arrays are z3 terms: the initial array of a chunk
+   (`storage_<addr>_<slot>_<n>_<size>_00`, cls.empty) or a numbered array variable
+   (`..._<uid>_<1 + len(ex.storages)>`).  store() binds the chunk to a NEW variable, records
+   `var -> Store(old, key, val)` in ex.storages and appends `var == Store(old, key, val)` to
+   ex.path.  The initial array of a non-symbolic account is NOT given a value: load() appends
+   the per-index emptiness axiom `Select(initial, key) == 0` to ex.path (under the guard
+   regenerated into Gen/GenStoreAxioms.v), and Exec.select answers ZERO by itself only when it
+   has walked the whole chain of definitions down to an initial array.
+   ex.storages and ex.path belong to the Exec (shared by accounts and by persistent/transient
+   storage); one account is modelled, which is the general case for the axioms' soundness.
+   Exec.select looks every array up in ex.storages; the definitions only ever refer to OLDER
+   arrays (invariant pwf_st in Proofs), so searching the remaining, older part of the list
+   for the base finds the same entry as a fresh lookup: pselect recurses on the list. *)
+Inductive aref := AEmpty (c : chunkid) | AVar (n : nat).
+
+Section PathStore.
+  Variable key : Type.
+  Variable val : Type.
+  Variable orc : key -> key -> tri.
+  (* is_bv_value(<simplified key>): the only feature of a key a load guard may look at *)
+  Variable key_is_value : key -> bool.
+  (* Gen.GenStoreAxioms.{sol,gen}_load_emits_empty *)
+  Variable emits_empty : bool -> bool -> bool.
+
+  Inductive axiom :=
+  | AxDef (n : nat) (base : aref) (k : key) (v : val)     (* AVar n == Store(base, k, v) *)
+  | AxEmpty (c : chunkid) (k : key).                       (* Select(AEmpty c, k) == 0 *)
+
+  Inductive pchunk := PScalar (v : val) | PArr (a : aref).
+  Definition pdefs := list (nat * (aref * key * val)).     (* ex.storages, newest first *)
+  Record pstate := {
+    p_symbolic : bool;                          (* StorageData.symbolic *)
+    p_mapping : list (chunkid * pchunk);        (* StorageData._mapping *)
+    p_storages : pdefs;                         (* ex.storages *)
+    p_path : list axiom                         (* the storage axioms of ex.path, newest first *)
+  }.
+  Definition p_empty : pstate :=               (* mk_storagedata() in a fresh Exec *)
+    {| p_symbolic := false; p_mapping := []; p_storages := []; p_path := [] |}.
+
+  Inductive pres :=
+  | PVal (v : val) | PZero | PInit (c : chunkid)
+  | PSelect (a : aref) (k : key).               (* Select(a, k) *)
+
+  (* Exec.select(array, key, ex.storages, symbolic) *)
+  Fixpoint pselect (st : pdefs) (sym : bool) (a : aref) (k : key) {struct st} : pres :=
+    match a with
+    | AEmpty _ => if sym then PSelect a k else PZero          (* name matches ^storage_.+_00$ *)
+    | AVar n =>
+        match st with
+        | [] => PSelect a k                                   (* not in `arrays`, not an initial array *)
+        | (m, (base, k0, v0)) :: rest =>
+            if (n =? m)%nat then
+              match orc k k0 with
+              | MustEq => PVal v0
+              | MustNeq => pselect rest sym base k
+              | Unknown => PSelect a k
+              end
+            else pselect rest sym a k
+        end
+    end.
+
+  Definition pfind (s : pstate) (c : chunkid) : option pchunk :=
+    match find (fun p => cid_eqb (fst p) c) (p_mapping s) with Some (_, ch) => Some ch | None => None end.
+  Definition parr (s : pstate) (c : chunkid) : aref :=
+    match pfind s c with Some (PArr a) => a | _ => AEmpty c end.   (* init(): cls.empty *)
+
+  (* load: result and the Exec afterwards (only ex.path changes) *)
+  Definition pload (s : pstate) (c : chunkid) (k : key) : pres * pstate :=
+    if cid_scalar c then
+      (match pfind s c with
+       | Some (PScalar v) => PVal v
+       | Some (PArr _) => PZero
+       | None => if p_symbolic s then PInit c else PZero
+       end, s)
+    else
+      let path' := if emits_empty (p_symbolic s) (key_is_value k) then AxEmpty c k :: p_path s else p_path s in
+      (pselect (p_storages s) (p_symbolic s) (parr s c) k,
+       {| p_symbolic := p_symbolic s; p_mapping := p_mapping s; p_storages := p_storages s; p_path := path' |}).
+
+  Definition pstore (s : pstate) (c : chunkid) (k : key) (v : val) : pstate :=
+    if cid_scalar c then
+      {| p_symbolic := p_symbolic s; p_mapping := (c, PScalar v) :: p_mapping s;
+         p_storages := p_storages s; p_path := p_path s |}
+    else
+      let n := S (length (p_storages s)) in
+      let base := parr s c in
+      {| p_symbolic := p_symbolic s; p_mapping := (c, PArr (AVar n)) :: p_mapping s;
+         p_storages := (n, (base, k, v)) :: p_storages s;
+         p_path := AxDef n base k v :: p_path s |}.
+
+  (* a straight-line sequence of SSTORE/SLOADs on one account through a decoder: the terms the
+     loads return, in order, and the Exec at the end (its path holds every axiom emitted) *)
+  Variable decode : loc -> res (chunkid * key).
+  Fixpoint prun (s : pstate) (ops : list (op val)) : list pres * pstate :=
+    match ops with
+    | [] => ([], s)
+    | OStore l v :: r =>
+        match decode l with
+        | Ok d => prun (pstore s (fst d) (snd d) v) r
+        | Err _ => ([], s)
+        end
+    | OLoad l :: r =>
+        match decode l with
+        | Ok d => let p := pload s (fst d) (snd d) in
+                  let q := prun (snd p) r in (fst p :: fst q, snd q)
+        | Err _ => ([], s)
+        end
+    end.
+End PathStore.
+Arguments AxDef {key val}. Arguments AxEmpty {key val}.
+Arguments PScalar {val}. Arguments PArr {val}.
+Arguments PVal {key val}. Arguments PZero {key val}. Arguments PInit {key val}. Arguments PSelect {key val}.
+
 (* ------------------------------------------------------------------ the two layouts as decoders *)
 Definition FUEL : nat := 64.
 
@@ -385,6 +499,32 @@ Section Run.
     bind (gen_decode R l) (fun d => Ok (load _ _ orc s (fst d) (snd d))).
   Definition gen_store (R : registry) (s : storage gkey val) (l : loc) (v : val) :=
     bind (gen_decode R l) (fun d => Ok (store _ _ s (fst d) (snd d) v)).
+
+  (* is_bv_value(simplify(concat(keys))) / is_bv_value(<decoded generic term>), under the same
+     abstraction of simplify as `simp`: a key is a value iff no symbolic word is left in it *)
+  Definition kt_is_value (k : kt) : bool :=
+    match k with
+    | KW ts => match simp_add (map simp ts) with K _ => true | _ => false end
+    | KN _ (NKc _) => true
+    | KN _ (NKv _) => false
+    end.
+  Definition sol_key_is_value (ks : list kt) : bool := forallb kt_is_value ks.
+  Fixpoint loc_is_value (l : loc) : bool :=
+    match l with
+    | K _ => true | V _ => false | ShaC _ _ => true
+    | Sha256 a => loc_is_value a
+    | Sha512 k a => loc_is_value k && loc_is_value a
+    | ShaN _ (NKc _) a => loc_is_value a
+    | ShaN _ (NKv _) _ => false
+    | Add ls => forallb loc_is_value ls
+    end.
+  Definition gen_key_is_value (g : gkey) : bool := loc_is_value (g_loc g).
+
+  (* the path-level runs of the two layouts: the guard of the emptiness axiom is the code's *)
+  Definition sol_prun (orc : list kt -> list kt -> tri) (R : registry) :=
+    prun (list kt) val orc sol_key_is_value sol_load_emits_empty (sol_decode R).
+  Definition gen_prun (orc : gkey -> gkey -> tri) (R : registry) :=
+    prun gkey val orc gen_key_is_value gen_load_emits_empty (gen_decode R).
 End Run.
 
 (* ------------------------------------------------------------------ denotations of decoded keys *)
